@@ -295,6 +295,21 @@ def run_large(rec, tier, seed):
                 st, y = call(count_annotations, inp, dtype=torch.int64, dim=dim)
                 if st != "ok" or not numpy.array_equal(y.numpy(), r):
                     rec.violation("count_annotations:dim_wrong:large", dict(case, dim=dim))
+        # narrow integer storage of the table (values fit; the matrix has more cells than the type can count) and explicit shapes
+        if ne <= 100:
+            for dt in (torch.uint8, torch.int8, torch.int16, torch.int32, torch.float32, torch.float64):
+                for shp in (None, (ne, na), (ne + 3, na + 30), (ne + 120, 300)):
+                    refp = ref if shp is None else _ref_counts(tab, shp[0], shp[1])
+                    for inp in (X.to(dt), (X[:, 0].to(dt).numpy(), X[:, 1].to(dt).numpy())):
+                        c2 = dict(case, table_dtype=str(dt), shape=shp, form="tensor" if isinstance(inp, torch.Tensor) else "tuple of arrays")
+                        st, y = call(count_annotations, inp, dtype=torch.int64, shape=shp)
+                        rec.case(1, 1)
+                        if st != "ok" or not numpy.array_equal(y.numpy(), refp):
+                            rec.violation("count_annotations:wrong:large", c2, observed=y if st != "ok" else None)
+                        for dim, r in ((0, refp.sum(0)), (1, refp.sum(1))):
+                            st, y = call(count_annotations, inp, dtype=torch.int64, dim=dim, shape=shp)
+                            if st != "ok" or not numpy.array_equal(y.numpy(), r):
+                                rec.violation("count_annotations:dim_wrong:large", dict(c2, dim=dim))
         if n <= 700:
             for sym in (True, False):
                 st, y = call(pairwise_annotations, X, symmetric=sym)
@@ -329,7 +344,25 @@ def run_large(rec, tier, seed):
         rec.case(3, 3)
         if st != "ok" or not numpy.array_equal(y.numpy(), ref):
             rec.violation("kmers:wrong_counts:large", dict(fn="kmers", A=A_, k=k, L=L), observed=y if st != "ok" else None)
-    rec.sample(dict(kind="large", tables=["200x8x10", "700x3x2", "1000x300x4", "400x1x1"], kmers=["k1 L70000", "k3 L5000", "k4 L3000"]))
+    # k-mer spaces beyond 2^24 columns (indexes no longer exact in single precision): the j-th k-mer is the one whose characters,
+    # first character least significant, spell j in base len(alphabet) - the order the small-k enumeration establishes
+    for (A_, k, L) in ((4, 12, 70), (4, 13, 70), (5, 11, 50)):
+        codes = rs.randint(0, A_, (1, L))
+        codes[0, -k:] = A_ - 1                                   # the largest index occurs
+        refd = {}
+        for i in range(L - k + 1):
+            j = sum(int(codes[0, i + t]) * A_ ** t for t in range(k))
+            refd[j] = refd.get(j, 0) + 1
+        st, y = call(kmers, ohe(codes, A_), k)
+        rec.case(1, 1)
+        ok = st == "ok" and tuple(y.shape) == (1, A_ ** k)
+        if ok:
+            nz = y[0].nonzero()[:, 0].tolist()
+            ok = sorted(nz) == sorted(refd) and all(float(y[0, j]) == refd[j] for j in nz)
+        if not ok:
+            rec.violation("kmers:wrong_counts:large", dict(fn="kmers", A=A_, k=k, L=L, columns=A_ ** k), observed=y if st != "ok" else None)
+        del y
+    rec.sample(dict(kind="large", big_kmer_spaces=["4^12", "4^13", "5^11"], table_dtypes="uint8..float64 x explicit shapes", tables=["200x8x10", "700x3x2", "1000x300x4", "400x1x1"], kmers=["k1 L70000", "k3 L5000", "k4 L3000"]))
 
 
 def run_shard(sh, tier, seed):
